@@ -266,6 +266,13 @@ func (g *Grammar) Alphabet() []Token {
 		if l.Kind == LexToken && len(l.Samples) > 0 {
 			out = append(out, Token{Name: l.Name, Lit: l.Samples[0]})
 			seen[l.Name] = true
+			for _, smp := range l.Samples {
+				if len(smp) > 32 {
+					// long lexemes are in the alphabet twice as often: error tokens longer than a
+					// typical "clip at n bytes" threshold
+					out = append(out, Token{Name: l.Name, Lit: smp}, Token{Name: l.Name, Lit: smp})
+				}
+			}
 		}
 	}
 	for _, a := range g.alts {
